@@ -291,7 +291,7 @@ func (p *Pool) once(ti int, data []byte, budget time.Duration) (Status, string) 
 			case <-time.After(time.Second):
 			}
 			nowCPU, nowRSS := cpuTime(pid), residentSize(pid)
-			growing := nowRSS > lastRSS+8<<20
+			growing := nowRSS > lastRSS+256<<10
 			if growing || nowCPU-lastCPU > 50*time.Millisecond {
 				lastProgress = time.Now()
 			}
